@@ -103,8 +103,8 @@ type kernel struct {
 	env    []string // k, v, k, v
 	nenv   int
 
-	plan  []Fault
-	nplan int
+	plan        []Fault
+	nplan       int
 	pathFaults  []PathFault
 	npathFaults int
 	// random fault mode: at each eligible call Choose(KFault,1000) >= 1000-rate
